@@ -33,6 +33,7 @@ TECHNIQUE = {
  "C22": "result-use analysis of stackless function values (SSA referrers, reach-avoiding search on the queue-full edge), sibling cross-check of the body compressors, control-dependence of coder selection",
  "C34": "reach-avoiding searches in the stream closers and writers, classification of every store to a bodyStream field (wrap/swap, dominated by the closer, read path)",
  "C35": "path-sensitive typestate of *multipart.Form values from their producing call to every return; dominance of RemoveAll over nil stores; reset coverage; serve-loop must-reset",
+ "C37": "lockset must-analysis against a frozen guarded-by table (discovered statistically, confirmed by reading), atomic-access consistency over all loads/stores, publish-immutability of lock-free shared entries",
  "C38": "typestate over select cases (timer / queue / completion) explored on every path of the deadline call; shape of the overflow return",
  "C23": "path-sensitive exploration of the FS request handler (guards before every use of the path, correlated with the rewriter's nil-ness), who-may-call rule over file-system access sites, operand provenance of the normaliser's dot tests",
  "C24": "zone (difference-bound) abstract interpretation of ParseByteRange path by path; path-sensitive exploration of the range branches of the FS handler; field re-arm coverage of pooled readers",
